@@ -126,7 +126,7 @@ pub fn build_plan(property: &str, tier: &str, seed: u64, ctx: &Arc<ExecCtx>) -> 
             }
             seeded(&mut plan, "c20-random", if quick { 1200 } else { 30_000 }, 20);
             plan.rule = "directed: for 7 braille codes x 4 highlight styles, get_braille(id) for the first 24 ids and a non-id, get_navigation_node_from_braille_position(k) for k in 0..40, len, len+1, and get_braille_position / get_braille(nav id) along a navigation walk; read errors injected at the 1st-3rd read inside routing with the user's highlight style Off; plus seeded random histories mixing navigation commands, changes of expression/code/style with the three queries (25% of runs with injected transient read errors under CheckRuleFiles=All). Oracle: the full preference snapshot, navigation position, plain braille and speech are identical before and after each query (also a failed one); fault-free: queries succeed for ids and cells of the current expression, start <= end <= length, returned ids belong to the expression; with Off or a foreign id the braille equals the plain get_braille of the empty id. non-trivial = at least one query checked; distinct = distinct trace hashes".into();
-            plan.required_probes = vec!["query_pure", "failed_query_pure", "position_in_range", "routing_ok", "unhighlighted_equal", "equals_braille_with_highlight_off", "highlight_ok"].into_iter().map(String::from).collect();
+            plan.required_probes = vec!["query_pure", "failed_query_pure", "position_in_range", "routing_ok", "unhighlighted_equal", "equals_braille_with_highlight_off", "outputs_like_session_without_queries", "highlight_ok"].into_iter().map(String::from).collect();
         }
         "C10" => {
             let d = props::c10::directed();
